@@ -348,7 +348,7 @@ func cmdCryptoLog(args []string) int {
 			// ---- tamper table: exactly one field changed ----
 			other := recs[(i+1)%len(recs)]
 			tamperSig := []struct {
-				what             string
+				what            string
 				e, s, A, B_, C_ string
 			}{
 				{"e", flip(r.sig.DLEQ.E), r.sig.DLEQ.S, ptHex(r.A), r.B_, r.sig.C_},
